@@ -73,6 +73,7 @@ def run(ctx: Ctx, chk) -> None:
     inplace2(ctx, chk)
     chk.run_rule(load_guard, ctx)
     chk.run_rule(inplace3, ctx)
+    chk.run_rule(save_serial, ctx)
     # replace targets
     for fl in pers.methods.values():
         for f in fl:
@@ -85,6 +86,34 @@ def run(ctx: Ctx, chk) -> None:
                         chk.ok(rule, fkey(f, node), "replace onto the live path", ctx.loc(f, node))
                     else:
                         chk.refute(rule, fkey(f, node), f"`{norm(node)}` does not move the new file onto the live path", ctx.loc(f, node))
+
+
+def save_serial(ctx: Ctx, chk) -> None:
+    rule = "SAVE-SERIAL"
+    chk.rule(rule, "two saves never write the file at the same time: a save only ever runs inside the task that awaits it (the saver task, load, stop or the caller) - nothing in the persistence / gateway code runs save() as an independent or shielded task, whose open/write/close would interleave with the final save of stop() on the same file and leave the concatenation of two documents")
+    from .c16 import TASK_MAKERS
+
+    mods = ("aiomysensors.persistence", "aiomysensors.gateway")
+    n = 0
+    for f in ctx.prog.all_functions():
+        if f.module.name not in mods:
+            continue
+        for node in ctx.own_nodes(f):
+            if not isinstance(node, ast.Call):
+                continue
+            names = callee_names(ctx, f, node)
+            kind = next((TASK_MAKERS[x] for x in names if x in TASK_MAKERS), None)
+            if kind is None:
+                continue
+            n += 1
+            chk.instance(rule)
+            key = fkey(f, node) + "::detached-save"
+            saves = [x for a in list(node.args) + [k.value for k in node.keywords] for x in ast.walk(a) if isinstance(x, ast.Call) and isinstance(x.func, ast.Attribute) and x.func.attr in ("save", "_save")]
+            if saves:
+                chk.refute(rule, key, f"`{norm(node)[:70]}` runs a save as its own task ({kind}): cancelling the saver no longer waits for that save, so stop() starts the final save while the detached one is still between open and close - the two writers interleave on one file", ctx.loc(f, node))
+            else:
+                chk.ok(rule, key, f"{kind}: the task argument is not a save", ctx.loc(f, node), sample=False)
+    chk.floor(rule, "task-starting sites in gateway/persistence", n, 1)
 
 
 def inplace3(ctx: Ctx, chk) -> None:
